@@ -97,6 +97,37 @@ func PairRoleConsistency(p *core.Program, r *core.Report, rule string) {
 				if id, ok := x.Key.(*ast.Ident); ok {
 					check(id.Name, x.Value, x.Pos())
 				}
+			case *ast.CallExpr:
+				// a call whose parameters carry no side (one input is handled at a time) is handed data of ONE side: an
+				// argument that belongs to side 1 next to one that belongs to side 2 mixes the two inputs
+				// (appendErrs(errs1, dirPath2, false)). Functions that take the pair (conns1, conns2, ...) are not meant.
+				fn := core.Callee(fd.Pkg.TypesInfo, x)
+				if fn == nil || !p.IsModuleFunc(fn) {
+					return true
+				}
+				sig := fn.Type().(*types.Signature)
+				var only1, only2 []string
+				for i, a := range x.Args {
+					if i >= sig.Params().Len() || sig.Variadic() {
+						break
+					}
+					if pn := sig.Params().At(i).Name(); !strings.HasPrefix(strings.ToLower(pn), "is") && (roleOf(pn) != 0 || strings.HasSuffix(pn, "1") || strings.HasSuffix(pn, "2")) {
+						only1, only2 = nil, nil // the callee takes the pair
+						break
+					}
+					h1, h2 := rolesIn(fd.Pkg.TypesInfo, fd.Decl.Body, a)
+					switch {
+					case h1 && !h2:
+						only1 = append(only1, core.ExprStr(a))
+					case h2 && !h1:
+						only2 = append(only2, core.ExprStr(a))
+					}
+				}
+				if len(only1)+len(only2) >= 2 {
+					n++
+					r.Check(len(only1) == 0 || len(only2) == 0, rule, fmt.Sprintf("%s: the call of %s is handed data of one side", fd.Key(), core.RefName(fn)), p.Pos(x.Pos()), "",
+						fmt.Sprintf("the call handles one input at a time but is handed %v (side 1) together with %v (side 2): what is recorded or computed for one input is taken from the other", only1, only2))
+				}
 			}
 			return true
 		})
